@@ -472,9 +472,11 @@ Section Transform.
     split; [|assumption]. destruct (implicit_of cfg (parent_str cfg pn)); [discriminate|discriminate].
   Qed.
 
-  Lemma transform_node_inode pn top nm rp av ch :
+  Hypothesis Hbem : mc_bem cfg = false.
+
+  Lemma transform_node_pre_inode pn top nm rp av ch :
     nv_ok P nm = true -> av_ok Pv av = true -> some_payload nm av = true ->
-    fst (transform_node cfg pn top (ANode nm None rp (av_attrs av) ch false)) =
+    fst (transform_node_pre cfg pn top (ANode nm None rp (av_attrs av) ch false)) =
     ANode (Some (rname cfg pn nm)) None rp (av_attrs av) ch false.
   Proof.
     intros Hn Ha Hp. destruct (rname_fine pn nm Hn) as [Hy1 Hy2].
@@ -486,7 +488,7 @@ Section Transform.
       - cbn [nv_ok] in Hn. destruct (HP [] Hn) as [Hne _]. contradiction.
       - destruct (nonempty (av_attrs av)); reflexivity.
       - destruct av as [[k w]|]; [reflexivity|discriminate]. }
-    unfold transform_node. rewrite Enm1, (av_merge _ Pv av Ha).
+    unfold transform_node_pre. rewrite Enm1, (av_merge _ Pv av Ha).
     set (y := rname cfg pn nm) in *. clearbody y. destruct y as [|c y]; [contradiction|].
     unfold not_lorem in Hy2. destruct (match_lorem (c :: y)); [|discriminate].
     cbv zeta. cbn [fst nonempty].
@@ -494,10 +496,24 @@ Section Transform.
       rewrite ?(av_xsl Pv av Ha), ?av_drop; reflexivity.
   Qed.
 
-  Lemma transform_tree_inode :
-    forall n, inode P Pv n = true -> forall pn top pending, fst (transform_tree cfg pn top pending n) = rnode cfg pn n.
+  (* BEM off: the node of transform_node_pre, the path grows by the node *)
+  Lemma transform_node_inode pn top anc nm rp av ch :
+    nv_ok P nm = true -> av_ok Pv av = true -> some_payload nm av = true ->
+    exists found path,
+      transform_node cfg pn top anc (ANode nm None rp (av_attrs av) ch false) =
+        Ok (ANode (Some (rname cfg pn nm)) None rp (av_attrs av) ch false, found, path).
   Proof.
-    induction n as [nm v rp at_ ch sc IH] using anode_ind'. intros Hs pn top pending.
+    intros Hn Ha Hp. unfold transform_node.
+    pose proof (transform_node_pre_inode pn top nm rp av ch Hn Ha Hp) as Hpre.
+    destruct (transform_node_pre cfg pn top (ANode nm None rp (av_attrs av) ch false)) as [n1 found]. cbn [fst] in Hpre. subst n1.
+    rewrite Hbem. eexists _, _. reflexivity.
+  Qed.
+
+  Lemma transform_tree_inode :
+    forall n, inode P Pv n = true -> forall pn top pending anc,
+      exists pd path, transform_tree cfg pn top pending anc n = Ok (rnode cfg pn n, pd, path).
+  Proof.
+    induction n as [nm v rp at_ ch sc IH] using anode_ind'. intros Hs pn top pending anc.
     destruct (inode_inv P Pv _ Hs) as [av [E [Hn [Ha [Hp Hch]]]]]. cbn [an_name an_repeat an_children] in *.
     injection E as -> ->. subst sc.
     rewrite transform_tree_eq. cbv zeta.
@@ -506,27 +522,28 @@ Section Transform.
                   else ANode nm None rp (av_attrs av) ch false) = ANode nm None rp (av_attrs av) ch false)
       by (rewrite av_drop; destruct (pending && is_input_name nm); reflexivity).
     rewrite E0.
-    destruct (transform_node cfg pn top (ANode nm None rp (av_attrs av) ch false)) as [n1 found] eqn:Etn.
-    assert (En1 : n1 = ANode (Some (rname cfg pn nm)) None rp (av_attrs av) ch false).
-    { change n1 with (fst (n1, found)). rewrite <- Etn. apply transform_node_inode; assumption. }
-    subst n1. set (x := rname cfg pn nm).
-    assert (Hgo : forall pd, fst (tt_kids cfg (Some x) ch pd) = map (rnode cfg (Some (Some x))) ch).
-    { clear Hs E0 Etn. induction ch as [|c k IHk]; intros pd; [reflexivity|].
+    destruct (transform_node_inode pn top anc nm rp av ch Hn Ha Hp) as [found [path0 Etn]].
+    set (x := rname cfg pn nm) in *.
+    assert (Hgo : forall pd pth, exists pd2 pth2,
+              tt_kids cfg (Some x) ch pd pth = Ok (map (rnode cfg (Some (Some x))) ch, pd2, pth2)).
+    { clear Hs E0 Etn. induction ch as [|c k IHk]; intros pd pth; [eexists _, _; reflexivity|].
       inversion IH as [|c' k' Hc Hk']; subst. cbn [forallb] in Hch. apply andb_prop in Hch. destruct Hch as [H1 H2].
-      specialize (Hc H1 (Some (Some x)) false pd). cbn [tt_kids]. fold (tt_kids cfg (Some x)).
-      destruct (transform_tree cfg (Some (Some x)) false pd c) as [c1 pd1]. cbn [fst] in Hc. subst c1.
-      specialize (IHk Hk' H2 pd1). destruct (tt_kids cfg (Some x) k pd1) as [r' pd2].
-      cbn [fst map] in *. subst r'. reflexivity. }
-    match goal with |- context [tt_kids cfg (Some x) ch ?pd] => specialize (Hgo pd); destruct (tt_kids cfg (Some x) ch pd) as [ch' pd2] end.
-    cbn [fst] in *. subst ch'. reflexivity.
+      destruct (Hc H1 (Some (Some x)) false pd pth) as [pd1 [pth1 Ec]]. cbn [tt_kids]. fold (tt_kids cfg (Some x)).
+      rewrite Ec. cbn [bind].
+      destruct (IHk Hk' H2 pd1 pth1) as [pd2 [pth2 Ek]]. rewrite Ek. cbn [bind map]. eexists _, _. reflexivity. }
+    destruct (Hgo (pending && negb (pending && is_input_name nm) || found) path0) as [pd2 [pth2 Eg]].
+    exists pd2, (firstn (length anc) pth2).
+    eapply eq_trans; [apply (bind_ok _ _ _ Etn)|]. cbv beta iota.
+    eapply eq_trans; [apply (bind_ok _ _ _ Eg)|]. reflexivity.
   Qed.
 
   Lemma transform_list_inode :
-    forall l, forallb (inode P Pv) l = true -> transform_list cfg l = map (rnode cfg None) l.
+    forall l, forallb (inode P Pv) l = true -> transform_list cfg l = Ok (map (rnode cfg None) l).
   Proof.
     induction l as [|c l IH]; intros H; [reflexivity|].
     cbn [forallb] in H. apply andb_prop in H. destruct H as [H1 H2].
-    cbn [transform_list map]. rewrite (transform_tree_inode c H1), (IH H2). reflexivity.
+    cbn [transform_list map]. destruct (transform_tree_inode c H1 None true false []) as [pd [path E]].
+    rewrite E. cbn [bind]. rewrite (IH H2). reflexivity.
   Qed.
 End Transform.
 
@@ -630,11 +647,12 @@ Definition value_sem (w : str) : bool := match w with [] => false | _ => true en
 
 (* From a token tree whose elements are a literal name and/or one class/id shorthand with a
    literal value: expand succeeds and the tag chunks nest to the unrolled preorder list in which
-   every nameless element carries the implicit name for its parent's final name. *)
+   every nameless element carries the implicit name for its parent's final name.
+   The BEM addon (options['bem.enabled']) is off: it rewrites class values. *)
 Theorem expand_tree_I (P Pv : str -> bool) x s toks root :
   (forall n, P n = true -> name_sem x n = true) ->
   (forall w, Pv w = true -> value_sem w = true) ->
-  cfg_ok x = true ->
+  cfg_ok x = true -> mc_bem (xc_m x) = false ->
   tokenize s = TOk toks -> parse (mc_jsx (xc_m x)) toks = POk root ->
   forallb (inamed P Pv) root = true ->
   (total_list root <= budget_of (mc_max_repeat (xc_m x)))%Z ->
@@ -644,7 +662,7 @@ Theorem expand_tree_I (P Pv : str -> bool) x s toks root :
       map (fun p => (fst p, tag_name (xc_o x) (snd p)))
           (resolve_names (imp_model (xc_m x)) [] (flat_map (xshape [] 0) root)).
 Proof.
-  intros HP HPv Hc Ht Hp Hn Hb. unfold cfg_ok in Hc.
+  intros HP HPv Hc Hbem Ht Hp Hn Hb. unfold cfg_ok in Hc.
   apply andb_prop in Hc. destruct Hc as [Hc Hclean]. apply andb_prop in Hc. destruct Hc as [Hsyn Htext].
   set (m := xc_m x) in *.
   assert (Htx : mc_text m = WNone) by (destruct (mc_text m); [reflexivity|discriminate|discriminate]).
@@ -674,7 +692,7 @@ Proof.
   exists (html_format (xc_o x) (map (rnode m None) forest)). split.
   - unfold expand_markup, markup_parse. fold m. unfold parse_abbr. rewrite Ht. fold m in Hp. rewrite Hp. fold env. rewrite Hcv. cbn [bind].
     rewrite walk_resolve_eq. rewrite (walk_list_inode m [] _ P Pv HP1 forest Hin). cbn [bind].
-    rewrite (transform_list_inode m P Pv HP2 forest Hin).
+    rewrite (transform_list_inode m P Pv HP2 Hbem forest Hin). cbn [bind].
     rewrite (stringify_html _ _ _ Hsyn). reflexivity.
   - rewrite (format_nest_gen (xc_o x) _ Hclean).
     + rewrite Hshape, (resolve_forest m root). reflexivity.
